@@ -2,12 +2,20 @@
    property itself on the implementation's output with the extracted reference definitions
    (LcsSpec, LisSpec): validity by direct checks, optimality against the reference optimum.
    [spec] never calls the model (lcs_func / lis_func / lnds_func), only the reference functions
-   subseq_b, lcs_len_ref, ordered_b, lis_len_ref and direct definitions. *)
+   subseq_b, lcs_len_ref, ordered_b, lis_len_ref and direct definitions (above 150 resp. 100
+   elements the two reference optima are computed by the same tables written directly on OCaml
+   arrays: the extracted ones count in unary and take a second per line at a thousand elements;
+   both are computed and compared on every line up to 60 elements).
+
+   Round 4 line forms (harness/cmd/lcslistrace/round4.go): "P <prelude> <line>" -- calls made before
+   the case, without effect on the stateless model: the prelude is dropped;  "V <mode> <lo1> <hi1>
+   <lo2> <hi2> <c> <arr>" -- LCS of two views of one array: the model and the property see the
+   two value lists;  modes g (strings by rank) and j (uint64 by rank): codes in value order. *)
 
 let key e = e / 100
 
 let eq_of = function
-  | "e" -> (fun (a : int) b -> a = b)
+  | "e" | "g" -> (fun (a : int) b -> a = b)
   | "k" -> (fun a b -> key a = key b)
   | "c" -> (fun a b -> key a / 2 = key b / 2)
   | "m" -> (fun a b -> key a mod 2 = key b mod 2)
@@ -16,11 +24,11 @@ let eq_of = function
   | m -> failwith ("bad eq mode " ^ m)
 
 (* is the test an equivalence (then the symmetric statement of the property applies too)? *)
-let is_equivalence = function "e" | "k" | "c" | "m" -> true | _ -> false
+let is_equivalence = function "e" | "g" | "k" | "c" | "m" -> true | _ -> false
 
-let cmp_of mode =
-  let c = match mode with
-    | "n" | "b" | "h" | "f" | "s" -> (fun (a : int) b -> compare a b)   (* typed modes: codes in value order *)
+let cmp_int mode : int -> int -> int =
+  match mode with
+    | "n" | "b" | "h" | "f" | "s" | "g" | "j" -> (fun (a : int) b -> compare a b)   (* typed modes: codes in value order *)
     | "k" -> (fun a b -> compare (key a) (key b))
     | "r" -> (fun a b -> compare (key b) (key a))
     | "d" -> (fun a b -> key a - key b)
@@ -29,18 +37,77 @@ let cmp_of mode =
     | "x" -> (fun a b -> if key a < key b then min_int + 1 else if key a > key b then max_int else 0)
     | "c" -> (fun a b -> key a / 2 - key b / 2)
     | "m" -> (fun a b -> key a mod 3 - key b mod 3)
-    | m -> failwith ("bad cmp mode " ^ m) in
-  fun a b -> z_of_int (c a b)
+    | m -> failwith ("bad cmp mode " ^ m)
+let cmp_of mode = let c = cmp_int mode in fun a b -> z_of_int (c a b)
+
+(* the reference optima once more, directly: "best chain ending here" / the textbook LCS table *)
+let lis_len_direct c strict (vs : int list) =
+  let a = Array.of_list vs in
+  let n = Array.length a in
+  let best = Array.make n 1 and top = ref 0 in
+  for i = 0 to n - 1 do
+    for j = 0 to i - 1 do
+      let r = c a.(j) a.(i) in
+      if (if strict then r < 0 else r <= 0) && best.(j) >= best.(i) then best.(i) <- best.(j) + 1
+    done;
+    if best.(i) > !top then top := best.(i)
+  done;
+  !top
+let lcs_len_direct eq (l : int list) (r : int list) =
+  let a = Array.of_list l and b = Array.of_list r in
+  let m = Array.length a and n = Array.length b in
+  let t = Array.make_matrix (m + 1) (n + 1) 0 in
+  for i = 1 to m do
+    for j = 1 to n do
+      t.(i).(j) <- if eq a.(i-1) b.(j-1) then t.(i-1).(j-1) + 1 else max t.(i-1).(j) t.(i).(j-1)
+    done
+  done;
+  t.(m).(n)
+exception Disagree
+let lis_opt mode strict vs =
+  let n = List.length vs in
+  let direct () = lis_len_direct (cmp_int mode) strict vs and extracted () = int_of_nat (M.lis_len_ref (cmp_of mode) strict vs) in
+  if n > 150 then direct ()
+  else if n > 60 then extracted ()
+  else (let d = direct () and e = extracted () in if d <> e then raise Disagree; e)
+let lcs_opt eq l r =
+  let n = max (List.length l) (List.length r) in
+  let direct () = lcs_len_direct eq l r and extracted () = int_of_nat (M.lcs_len_ref eq l r) in
+  if n > 100 then direct ()
+  else if n > 60 then extracted ()
+  else (let d = direct () and e = extracted () in if d <> e then raise Disagree; e)
 
 (* optional window field w<pre>,<spare> *)
 let spare_of = function
   | [] -> 0
+  | "wn" :: _ -> 0
   | w :: _ when String.length w > 1 && w.[0] = 'w' ->
     (match ints_of (String.sub w 1 (String.length w - 1)) with [_; sp] -> sp | _ -> 0)
   | _ -> 0
 
-let eval inp =
+let rec drop n l = if n <= 0 then l else match l with [] -> [] | _ :: t -> drop (n - 1) t
+let rec take n l = if n <= 0 then [] else match l with [] -> [] | h :: t -> h :: take (n - 1) t
+
+(* V <mode> <lo1> <hi1> <lo2> <hi2> <c> <arr> -> the two value lists, None when the bounds do not fit *)
+let views lo1 hi1 lo2 hi2 arr =
+  match List.map int_of_string_opt [lo1; hi1; lo2; hi2] with
+  | [Some a; Some b; Some c; Some d] ->
+    let arr = ints_of arr in
+    let n = List.length arr in
+    if 0 <= a && a <= b && b <= n && 0 <= c && c <= d && d <= n
+    then Some (take (b - a) (drop a arr), take (d - c) (drop c arr)) else None
+  | _ -> None
+
+let lcs_line mode a b =
+  match M.lcs_func (eq_of mode) a b with
+  | Some s -> (if M.lcs_is_nil a b then "z " else "s ") ^ str_ints s ^ " m0 a0"
+  | None -> "NONE"
+
+let rec eval inp =
   match words inp with
+  | "P" :: _ :: rest -> eval (String.concat " " rest)
+  | ["V"; mode; lo1; hi1; lo2; hi2; _; arr] ->
+    (match views lo1 hi1 lo2 hi2 arr with Some (a, b) -> lcs_line mode a b | None -> "?")
   | "L" :: mode :: a :: b :: _ ->
     let a = ints_of a and b = ints_of b in
     (match M.lcs_func (eq_of mode) a b with
@@ -62,9 +129,14 @@ let rec exact_subseq s l =
   | _, [] -> false
   | x :: s', y :: l' -> if (x : int) = y then exact_subseq s' l' else exact_subseq s l'
 
-let spec prop inp out =
+let rec spec prop inp out =
   if prop <> "C12" then None else
   match words inp with
+  | "P" :: _ :: rest -> spec prop (String.concat " " rest) out
+  | ["V"; mode; lo1; hi1; lo2; hi2; _; arr] ->
+    (match views lo1 hi1 lo2 hi2 arr with
+     | Some (a, b) -> if out = "?" then Some "bounds that fit the array were rejected" else spec prop (String.concat " " ["L"; mode; str_ints a; str_ints b]) out
+     | None -> None)
   | "L" :: mode :: a :: b :: _ ->
     let a = ints_of a and b = ints_of b in
     (match words out with
@@ -79,7 +151,7 @@ let spec prop inp out =
          else if not (M.subseq_b eq s b) then Some "result is not a subsequence of the second argument"
          else if not (exact_subseq s a || exact_subseq s b) then Some "result elements are taken from neither argument"
          else
-           let opt = int_of_nat (M.lcs_len_ref eq a b) in
+           let opt = lcs_opt eq a b in
            if List.length s <> opt then Some (Printf.sprintf "length %d, reference optimum %d" (List.length s) opt)
            else None
        end else begin
@@ -91,7 +163,7 @@ let spec prop inp out =
            if not (exact_subseq s xs) then Some "result is not an element-identical subsequence of the shorter input"
            else if not (M.subseq_b eq s ys) then Some "result does not match a subsequence of the longer input under eq(x, y)"
            else
-             let opt = int_of_nat (M.lcs_len_ref eq xs ys) in
+             let opt = lcs_opt eq xs ys in
              if List.length s <> opt then Some (Printf.sprintf "length %d, reference optimum %d for eq(shorter, longer)" (List.length s) opt)
              else None in
          (* which input the code treats as xs is not part of the property: accept either, reporting
@@ -112,7 +184,7 @@ let spec prop inp out =
        else if not (exact_subseq s vs) then Some "result is not a subsequence of the input"
        else if not (M.ordered_b c strict s) then Some (if strict then "result is not strictly increasing" else "result is not non-decreasing")
        else
-         let opt = int_of_nat (M.lis_len_ref c strict vs) in
+         let opt = lis_opt mode strict vs in
          if List.length s <> opt then Some (Printf.sprintf "length %d, reference optimum %d" (List.length s) opt)
          else None
      | _ -> Some ("unexpected output " ^ out))
